@@ -91,13 +91,22 @@ def grid_record(o, t):
             ext = np.asarray(pg.voronoi_cells.points, dtype=float)
             pts = np.asarray(pg.get_position_grid_as_array(), dtype=float)
     except Exception as ex:
-        rec["err"] = type(ex).__name__
+        rec["err"] = "exception:" + type(ex).__name__
         return rec
     n = len(vol)
     rec["n"] = n
-    if not np.allclose(ext[:n], pts):
-        raise MachineryError("extended point set does not start with the grid points")
-    g = geometry(ext, n)
+    # the point set "extended by one extra outer shell": the shell continues the last increment of the radial grid
+    # (increments = first radius followed by the differences, C16), built here from the grid's own radii and directions
+    radii = np.asarray(pg.get_radii(), dtype=float)
+    dirs = np.asarray(pg.get_o_grid().get_grid_as_array(), dtype=float)
+    last_inc = radii[-1] - radii[-2] if len(radii) > 1 else radii[0]
+    mine = np.concatenate([dirs * r for r in list(radii) + [radii[-1] + last_inc]])
+    if mine.shape != ext.shape or not np.allclose(mine[:n], pts):
+        raise MachineryError("grid points of the driver and of the implementation differ")
+    if not np.allclose(mine, ext, atol=1e-9):
+        rec["err"] = "the extra outer shell is not at the last radius plus the last increment"
+        return rec
+    g = geometry(mine, n)
     vc = ValueClasses(rel=1e-7, abs_=1e-9)
     fa = [(i, j, a, float(np.linalg.norm(pts[i] - pts[j]))) for (i, j), a in sorted(g["faces"].items())]
     alld = [float(np.linalg.norm(pts[i] - pts[j])) for i, j in zip(D.row, D.col)]
